@@ -197,6 +197,7 @@ fn set_popt(o: &mut ParserOpts, k: &str, v: &Option<String>) {
         "show_warnings" => o.show_warnings = b(v),
         "serialisation_format" => o.serialisation_format = v.clone(),
         "storaget" => o.storaget = v.clone(),
+        "token_map_rename" => o.token_map_rename = v.clone(),
         _ => {}
     }
 }
@@ -287,6 +288,7 @@ pub fn execute(exe: &Path, sc: &BScenario, dir: &Path) -> BReport {
         show_warnings: Some(false),
         serialisation_format: Some("VariableSizedInteger".into()),
         storaget: Some("u32".into()),
+        token_map_rename: Some("true".into()),
     };
     let mut lopts = LexerOpts {
         visibility: Some("Private".into()),
@@ -382,6 +384,9 @@ pub fn execute(exe: &Path, sc: &BScenario, dir: &Path) -> BReport {
                 if eff.recoverer.is_none() {
                     eff.recoverer = Some("CPCTPlus".into());
                 }
+                // (an input of the token-map step only: no part of what the parser or the lexer is
+                // generated from)
+                eff.token_map_rename = None;
                 let key_y = Key(gsrc.clone(), format!("{:?}", eff));
                 let key_l = Key(format!("{gsrc}\u{0}{lsrc}"), format!("{:?}|{:?}|{:?}", eff.yacckind, eff.storaget, lopts));
                 let before_y = (std::fs::read(&py).ok(), mtime_ns(&py));
@@ -528,6 +533,11 @@ pub fn execute(exe: &Path, sc: &BScenario, dir: &Path) -> BReport {
                     } else {
                         // 2. a failing build must not leave a stale file from an earlier configuration
                         let err = res.as_ref().map(|r| r.error.clone()).unwrap_or_default();
+                        // the token-map step itself failed (a token name that is no identifier):
+                        // like the other two builders it must not leave an earlier module behind
+                        if err.starts_with("token map:") && py.parent().unwrap().join("token_map.rs").exists() && !clean.join("token_map.rs").exists() {
+                            add(&mut rep, "stale-token-map-after-failing-build", format!("op {oi}: CTTokenMapBuilder failed ({}) but out/token_map.rs of an earlier build is still on disk (a clean build leaves none)", err.chars().take(120).collect::<String>()), None, oi);
+                        }
                         let panicked = res.as_ref().map_or(false, |r| r.panicked);
                         if after_y.0.is_none() {
                             prov_y = None;
@@ -538,6 +548,16 @@ pub fn execute(exe: &Path, sc: &BScenario, dir: &Path) -> BReport {
                         if rewritten_y {
                             // the parser half succeeded for the current configuration
                             prov_y = Some(key_y.clone());
+                        }
+                        if err.starts_with("token map:") {
+                            // parser and lexer were both built (or found up to date) for the current
+                            // configuration; only the step after them failed
+                            if after_y.0.is_some() {
+                                prov_y = Some(key_y.clone());
+                            }
+                            if after_l.0.is_some() {
+                                prov_l = Some(key_l.clone());
+                            }
                         }
                         // the lexer source is read and compiled before the parser builder runs: a
                         // broken .l file, or a valid one whose regexes do not compile under the
@@ -594,6 +614,7 @@ const POPT_POOL: &[(&str, &[&str])] = &[
     ("show_warnings", &["true", "false"]),
     ("serialisation_format", &["FixedSizeInteger", "VariableSizedInteger"]),
     ("storaget", &["u8", "u16", "u32"]),
+    ("token_map_rename", &["true", "false"]),
 ];
 const LOPT_POOL: &[(&str, &[&str])] = &[
     ("visibility", &["Private", "Public", "PublicSuper", "PublicSelf", "PublicCrate", "PublicIn:crate::parsers", "PublicIn:crate::frontend"]),
